@@ -77,7 +77,7 @@ def gen_queue_cases(tier, seed):
             path = wk.decode_target(tg)[1] if tg.startswith("/") else "/ok"
             if path != "/" and any(c in ("", ".", "..") for c in path[1:].split("/")):
                 clean = False
-            s.add("symlink %s %s %d" % (hexs(Q + "/" + nm), hexs(tg), wc.CLOCK0 - rng.choice([0, 5])))
+            s.add("symlink %s %s %d" % (hexs(Q + "/" + nm), hexs(tg), wc.CLOCK0 - rng.choice([0, 5, 5, -50, -4000000000])))      # (also links stamped in the future: a clock stepped back, a restored backup)
         if rng.random() < 0.25:
             # entries that are not symbolic links at all: a stray regular file, a sub-directory (hand edits, backups)
             nm = rng.choice(["3", "4", "12", "notes"])
@@ -265,7 +265,10 @@ def main(rep):
         dist["root_pairs"] = ncpp
         dist["pid_tables"] = nbm
         if not found:
-            impl, model, problems = vlib.correspond(exe_impl, exe_model, "pure", argv)
+            impl, model, problems = vlib.correspond(exe_impl, exe_model, "pure", [c for c in argv if not c[1].startswith("bm ")])
+            impl_bm, _, problems_bm = vlib.correspond(exe_impl, None, "pure", [c for c in argv if c[1].startswith("bm ")])
+            impl.update(impl_bm)
+            problems += problems_bm
             for p in problems:
                 if "implementation driver exited" in p:
                     culprit = next(((c, t) for c, t in argv if not impl.get(c)), (None, ""))
@@ -275,6 +278,17 @@ def main(rep):
                     break
             if not found:
                 for cid, script in argv:
+                    if script.startswith("bm "):
+                        # tables of up to 2^23 flags: judged by a set of process ids (the model's unary table is for C07's sizes)
+                        from check_C07 import bm_monitor
+                        t = script.split()
+                        bad = bm_monitor((int(t[1]), t[2:]), impl.get(cid))
+                        if bad:
+                            rep.violation("memory", {"case": cid, "driver": "pure", "script": [script], "implementation": impl.get(cid), "what": bad})
+                            found = True
+                            break
+                        validated += 1
+                        continue
                     if impl.get(cid) != model.get(cid):
                         rep.violation("correspondence", {"case": cid, "script": [script], "implementation": impl.get(cid), "model": model.get(cid),
                                                          "what": "implementation and model differ"}, found_input=False)
